@@ -63,6 +63,9 @@ func NewRun(prop, tier string, prog *Program) *Run {
 		RuleText: map[string]string{}, knownUsed: map[int]bool{}}
 	if prog != nil {
 		r.G = NewGuardEngine(prog)
+		if tier != "emit" {
+			r.G.known = loadKnownFuncs(prog)
+		}
 	}
 	r.loadKnown()
 	return r
@@ -275,4 +278,18 @@ func (r *Run) Finish() int {
 		return 1
 	}
 	return 0
+}
+
+// loadKnownFuncs: keys of all functions that existed when the references were frozen (every declared
+// function is recorded by `bcv emit` in ref/functions.json).
+func loadKnownFuncs(prog *Program) map[string]bool {
+	var keys []string
+	if err := readJSON(refPath("functions.json"), &keys); err != nil || len(keys) < 1000 {
+		return nil
+	}
+	m := map[string]bool{}
+	for _, k := range keys {
+		m[k] = true
+	}
+	return m
 }
